@@ -25,7 +25,10 @@ EXTENDS Naturals, Sequences, FiniteSets, TLC, Json, SequencesExt, FiniteSetsExt
 CONSTANTS Names,      \* sequence of the object's own parameter names (original order)
           Foreign,    \* set of names that may occur as keys but do not belong to the object
           Values,     \* set of values a parameter may be fixed to
-          MaxOps
+          MaxOps,
+          Design      \* "code": what fix_parameters does.  Negative controls (refuted by TLC, see check_c08):
+                      \* "freshmask": every call starts from an empty mask, so earlier fixes are forgotten;
+                      \* "nocollapse": the wrapper is kept when the last parameter is released
 None   == "None"
 Absent == "Absent"
 
@@ -51,8 +54,8 @@ Substitute(f, v) == [i \in 1..N |-> IF Names[i] \in DOMAIN f THEN f[Names[i]] EL
 
 \* ---- Mech ------------------------------------------------------------------------
 Collapsed == mask = <<>>
-MaskOrFresh == IF Collapsed THEN [i \in 1..N |-> FALSE] ELSE mask
-BufOrFresh  == IF Collapsed THEN [i \in 1..N |-> "junk"] ELSE buffer
+MaskOrFresh == IF Collapsed \/ Design = "freshmask" THEN [i \in 1..N |-> FALSE] ELSE mask
+BufOrFresh  == IF Collapsed \/ Design = "freshmask" THEN [i \in 1..N |-> "junk"] ELSE buffer
 MechMask(d)   == [i \in 1..N |-> IF d[Names[i]] = Absent THEN MaskOrFresh[i] ELSE d[Names[i]] # None]
 MechBuffer(d) == [i \in 1..N |-> IF d[Names[i]] = Absent THEN BufOrFresh[i]
                                  ELSE IF d[Names[i]] = None THEN "junk" ELSE d[Names[i]]]
@@ -61,7 +64,7 @@ AllFree(m) == \A i \in 1..N : ~m[i]
 Fix(d) ==
   /\ nops < MaxOps
   /\ fixed' = DeclFix(fixed, d)
-  /\ IF AllFree(MechMask(d))
+  /\ IF AllFree(MechMask(d)) /\ Design # "nocollapse"
      THEN mask' = <<>> /\ buffer' = <<>>                      \* collapse: the plain model is used again
      ELSE mask' = MechMask(d) /\ buffer' = MechBuffer(d)
   /\ nops' = nops + 1 /\ lastd' = d
